@@ -270,26 +270,30 @@ def explore(spec, params, depth, max_dev, *, do_finish=True, dedup=True, time_ca
     return res
 
 
-def audit(spec, params, depth, max_dev, *, seed=0, limit=20000):
+def audit(spec, params, depth, max_dev, *, seed=0, limit=20000, do_finish=True):
     """Audit mode (DESIGN §3.4): explore without de-duplication and check that two paths with
-    equal fingerprints have equal *futures*: the same enabled actions and the same fingerprints
-    after each of them.  Returns (classes, pairs_checked, mismatches)."""
+    equal fingerprints (and equal remaining budgets) have equal *futures*: the same enabled actions,
+    the same fingerprints after each of them, and the same oracle verdicts (invariant and, at
+    quiescent states, the end-of-script oracle).  Returns (classes, pairs_checked, mismatches)."""
     by_fp = collections.defaultdict(list)
     frontier = [((), 0, 0)]
     n = 0
     while frontier and n < limit:
         nxt = []
         for (p, ev, dv) in frontier:
-            r = _expand((spec, params, p, ev, dv, depth, max_dev, False))
+            r = _expand((spec, params, p, ev, dv, depth, max_dev, do_finish))
             if r[0] == "harness":
                 raise HarnessError(r[2])
-            succ = tuple(sorted((json.dumps(a), fp, json.dumps(viol, sort_keys=True)) for (a, k, nev, ndv, fp, viol, q, fv, o) in r[2]))
+            succ = tuple(sorted((json.dumps(a), fp, (viol or {}).get("clause"), (fv or {}).get("clause"))
+                                for (a, k, nev, ndv, fp, viol, q, fv, o) in r[2]))
             w, _, _ = replay(spec, params, p, check_enabled=False)
             by_fp[(w.fingerprint(), depth - ev, max_dev - dv)].append((p, succ))
             n += 1
             for (a, k, nev, ndv, fp, viol, q, fv, o) in r[2]:
                 if not viol:
                     nxt.append((p + (a,), nev, ndv))
+            if n >= limit:
+                break
         frontier = nxt
     pairs = 0
     mismatches = []
